@@ -18,10 +18,19 @@ def _gen(out, tier):
     common.sync_lock(out)
 
 
-def _build(out, tdir, toolchain=None, rustflags=None):
-    cmd = ["cargo"] + (["+" + toolchain] if toolchain else []) + ["build", "--offline", "--release", "--target-dir", tdir]
-    r = common.run(cmd, cwd=out, env=common.env_with({"RUSTFLAGS": rustflags} if rustflags else None), timeout=3600)
+def _build(out, tdir, toolchain=None, rustflags=None, chk=None):
+    base = ["cargo"] + (["+" + toolchain] if toolchain else []) + ["build", "--offline", "--release", "--target-dir", tdir]
     b = os.path.join(tdir, "release", "gluelayout")
+    r = common.run(base, cwd=out, env=common.env_with({"RUSTFLAGS": rustflags} if rustflags else None), timeout=3600)
+    if not r["timed_out"] and r["rc"] != 0:
+        # the probes that name generated multi-trait cast functions may not build on a modified generator:
+        # fall back to the core probes (vtable order, group words, sizes) and say so
+        first_err = r["err"][-4000:]
+        if os.path.exists(b):
+            os.remove(b)
+        r = common.run(base + ["--no-default-features", "--features", "track-alloc"], cwd=out, env=common.env_with({"RUSTFLAGS": rustflags} if rustflags else None), timeout=3600)
+        if r["rc"] == 0 and os.path.exists(b) and chk is not None:
+            chk.incon("multi-trait cast probes do not build on this tree (core layout probes were run without them): %s" % first_err[-600:])
     if r["timed_out"] or r["rc"] != 0 or not os.path.exists(b):
         raise Inconclusive("layout probe build failed (%s %s): %s" % (toolchain, rustflags, r["err"][-4000:]))
     return b
@@ -51,7 +60,8 @@ def published_headers(chk):
             chk.violation("C04:object-size-vs-documented-structure", "%s: size_of = %d, align %d; vtable pointers + instance + context + temporary storage add up to %d" % (key, sz, al, want), dict(key=key))
     # (b) the published headers
     binary = bgrun.tool()
-    cases = [("plugin-api", pm, None)] + [("s%d" % i, emit.random_model(chk.seed * 1000 + i, wrapped=True), None) for i in range(4 if chk.tier == "quick" else 40)]
+    # borrowed-return storage with and without a context, alternating
+    cases = [("plugin-api", pm, None)] + [("s%d" % i, emit.random_model(chk.seed * 1000 + i, wrapped=True, wrapped_ctx=("" if i % 2 == 0 else "Arc")), None) for i in range(4 if chk.tier == "quick" else 40)]
     compared = 0
     for name, model, _ in cases:
         w = os.path.join(WORK, "layout", chk.tier, "hdr-" + name)
@@ -66,7 +76,7 @@ def published_headers(chk):
         if name == "plugin-api":
             model, emc = emit_cpp.plugin_api_cpp()
         else:
-            model, emc, _, _ = emit_cpp.random_cpp(chk.seed * 1000 + int(name[1:]), wrapped=True)
+            model, emc, _, _ = emit_cpp.random_cpp(chk.seed * 1000 + int(name[1:]), wrapped=True, wrapped_ctx=("" if int(name[1:]) % 2 == 0 else "Arc"))
         r = bgrun.run_tool_cpp(binary, w + "-cpp", emc.text, config=None)
         if r["rc"] == 0 and r["text"]:
             res = bgrun.drive_cpp(w + "-cpp", emc, model, r["out_path"], r["text"])
@@ -83,7 +93,7 @@ def run(chk, replay=None):
     out = os.path.join(WORK, "layout", chk.tier)
     _gen(out, chk.tier)
     jobs = []
-    b = _build(out, os.path.join(out, "target"))
+    b = _build(out, os.path.join(out, "target"), chk=chk)
     jobs.append(lambda: gluerun.run_bin(chk, [b], "probes-stable", ("C04:",)))
     # repr(C) must make the generated structs immune to the compiler's field reordering
     seeds = [chk.seed * 10 + i for i in range(2 if q else 8)]
